@@ -71,6 +71,7 @@ def standin_classes(fresh):
         shutil.rmtree(tmp, ignore_errors=True)
         return None, log
     try:
+        os.chmod(tmp, 0o755)
         os.rename(tmp, final)  # atomic; loses the race harmlessly when another run got there first
     except OSError:
         shutil.rmtree(tmp, ignore_errors=True)
